@@ -10,8 +10,17 @@ import (
 func InitGenesis(ctx sdk.Context, k keeper.Keeper, state *types.GenesisState) {
 	k.SetParams(ctx, state.Params)
 
+	// the genesis state carries no id counter: restart it at the highest imported id, otherwise the next
+	// locker is created with id 1 and overwrites an existing one
+	var lockerID uint64
 	for _, item := range state.Lockers {
 		k.SetLocker(ctx, item)
+		if item.LockerId > lockerID {
+			lockerID = item.LockerId
+		}
+	}
+	if lockerID > 0 {
+		k.SetIDForLocker(ctx, lockerID)
 	}
 
 	for _, item := range state.LockerProductAssetMapping {
